@@ -1,6 +1,7 @@
 (* C27 — URIs survive serialisation and agree with net/url. *)
-From FH Require Import Model.Base Gen.GenC27 Model.IPv6 Model.PathNorm Model.Uri Spec.NetUrl Proof.UriProof Proof.NetUrlProof.
+From FH Require Import Model.Base Gen.GenC27 Model.IPv6 Model.PathNorm Model.Uri Model.UriOps Spec.NetUrl Proof.UriProof Proof.NetUrlProof.
 Open Scope N_scope.
+Definition obs_host_of (r : ures URI) : bytes := match r with UOk u => Host u | UErr _ => [] end.
 
 (* For any URI fasthttp parses successfully (path normalisation on; any host argument, in particular none = an absolute URI)
    whose host does not contain a literal '%' after decoding: parsing FullURI() again succeeds and yields the same scheme,
@@ -18,6 +19,36 @@ Theorem C27_requesturi_reparse : forall hostArg uri u, wf_bytes hostArg -> wf_by
   exists u', parse (Host u) (RequestURI u) = UOk u' /\ Host u' = Host u /\ Path u' = Path u /\ QueryString u' = QueryString u.
 Proof. exact requesturi_reparse. Qed.
 Print Assumptions C27_requesturi_reparse.
+
+(* The same for URI objects that were edited after parsing.  `good u` (Proof/UriProof.v) is the invariant a successful parse
+   establishes (C27_parse_establishes_invariant): scheme empty or a lower-cased valid scheme, host = lower-cased result of
+   parseHost, path = an output of normalizePath, no '#' or control byte in the query string, no control byte in the fragment.
+   SetPath (any bytes), SetQueryString (no '#'/control byte), SetHash (no control byte), SetScheme (valid scheme), SetUsername,
+   SetPassword keep it (CopyTo copies the fields; Reset + Parse re-establishes it), hence the round trip holds after any sequence of them.
+   SetHost is NOT in the list: it stores any bytes unvalidated (e.g. "a/b"), which FullURI() cannot represent. *)
+Theorem C27_parse_establishes_invariant : forall hostArg uri u, wf_bytes hostArg -> wf_bytes uri -> parse hostArg uri = UOk u -> good u.
+Proof. exact parse_good. Qed.
+Print Assumptions C27_parse_establishes_invariant.
+
+Theorem C27_edited_uri_reparse : forall u, good u -> ~ In PCT (Host u) ->
+  (exists u', parse [] (FullURI u) = UOk u' /\
+     Scheme u' = Scheme u /\ Host u' = Host u /\ Path u' = Path u /\ QueryString u' = QueryString u /\ Hash u' = Hash u) /\
+  (exists u', parse (Host u) (RequestURI u) = UOk u' /\ Host u' = Host u /\ Path u' = Path u /\ QueryString u' = QueryString u).
+Proof. intros u G Hn. split; [now apply fulluri_reparse_good|now apply requesturi_reparse_good]. Qed.
+Print Assumptions C27_edited_uri_reparse.
+
+Theorem C27_setters_keep_invariant : forall st, good (us_uri st) ->
+  (forall v, good (us_uri (SetPath st v))) /\
+  (forall v, stringContainsCTLByte v = false -> ~ In HASH v -> good (us_uri (SetQueryString st v))) /\
+  (forall v, stringContainsCTLByte v = false -> good (us_uri (SetHash st v))) /\
+  (forall v, wf_bytes v -> isValidScheme v = true -> good (us_uri (SetScheme st v))) /\
+  (forall v, good (us_uri (SetUsername st v))) /\ (forall v, good (us_uri (SetPassword st v))).
+Proof.
+  intros st G. repeat split; intros; cbn.
+  - now apply good_set_path. - now apply good_set_qs. - now apply good_set_hash. - now apply good_set_scheme.
+  - now apply good_set_userinfo. - now apply good_set_userinfo.
+Qed.
+Print Assumptions C27_setters_keep_invariant.
 
 (* the query ARGUMENTS are a function of the query string (Args.ParseBytes, property C28): equal strings, equal arguments *)
 Theorem C27_query_args_preserved : forall (A : Type) (parse_args : bytes -> A) hostArg uri u, wf_bytes hostArg -> wf_bytes uri ->
@@ -67,6 +98,15 @@ Example C27_guard_needed :
   | UErr _ => False
   end.
 Proof. vm_compute. repeat split; reflexivity. Qed.
+
+(* SetHost stores what it is given: an edited host need not survive (why it is excluded above) *)
+Example C27_sethost_unvalidated :
+  match parse [] (s2b "http://h/p") with
+  | UOk u => let st := SetHost (of_parse u) (s2b "A/b") in
+             FullURI_st st = s2b "http://a/b/p" /\ obs_host_of (parse [] (FullURI_st st)) = s2b "a"
+  | UErr _ => False
+  end.
+Proof. vm_compute. split; reflexivity. Qed.
 
 Example C27_ex_neturl :
   nu_parse (s2b "HTTP://User:Pw@EXAMPLE.com:80/a/./b?x=1&y=%zz#F#g") = Some (s2b "http", s2b "EXAMPLE.com:80", s2b "x=1&y=%zz")
